@@ -147,6 +147,7 @@ def run(chk, ctx) -> None:
         chk.ob('C17.letters', f'ACPCProtocolParser.{k}', pats.get(k) == w, ap.loc,
                'the parser reads the same letters the writers emit', got=pats.get(k), want=w)
     chk.floor('C17.letters', 13)
+    _line_patterns(chk, sev, ap)
     pf = ap.methods.get('_parse')
     if pf is None:
         raise AnalysisError('ACPCProtocolParser._parse vanished')
@@ -389,3 +390,57 @@ def _arm_name(parms, node):
         if any(m is node for s in body for m in ast.walk(s)):
             return k
     return 'init'
+
+
+def _line_patterns(chk, sev, ap) -> None:
+    """a protocol line is colon-separated fields; the parser accepts a line iff every field is there, and takes for a field everything up
+    to the next colon (player names are free text: bots are called ``hyperborean_iro.2p`` or ``Mr. Blue``) - read off the regex AST"""
+    import re._parser as sp
+    from re._constants import AT, AT_BEGINNING, AT_END, CATEGORY, CATEGORY_DIGIT, IN, LITERAL, MAX_REPEAT, MAXREPEAT, NEGATE, SUBPATTERN
+    v = sev.class_attr('ACPCProtocolParser', 'HAND')
+    pats = [x for x in v if isinstance(x, Obj) and x.cls == 'Pattern'] if isinstance(v, tuple) else []
+    want = [['players', 'hand', 'actions', 'cards', 'results'], ['STATE', 'hand', 'actions', 'cards', 'results', 'players']]
+    got = []
+    for x in pats:
+        flags = 'MULTILINE' in repr(x.args[1:]) if len(x.args) > 1 else False
+        try:
+            tree = sp.parse(x.args[0])
+        except Exception as ex:  # noqa
+            got.append(f'unparsable: {ex}')
+            continue
+        names = {n: k for k, n in tree.state.groupdict.items()}
+        items = list(tree.data)
+        fields, ok, lit = [], flags, ''
+        if not items or items[0] != (AT, AT_BEGINNING) or items[-1] != (AT, AT_END):
+            ok = False
+        for op, av in items[1:-1]:
+            if op == LITERAL and av == ord(':'):
+                if lit:
+                    fields.append(lit)
+                    lit = ''
+                continue
+            if op == LITERAL:
+                lit += chr(av)
+                continue
+            if op == SUBPATTERN and av[0] in names and len(av[3]) == 1 and av[3][0][0] == MAX_REPEAT:
+                lo, hi, inner = av[3][0][1]
+                name = names[av[0]]
+                fields.append(name)
+                if lo != 1 or hi != MAXREPEAT or len(inner) != 1 or inner[0][0] != IN:
+                    ok = False
+                    continue
+                cls = inner[0][1]
+                if name == 'hand':
+                    ok &= cls == [(CATEGORY, CATEGORY_DIGIT)]
+                else:
+                    excl = {c for o, c in cls[1:] if o == LITERAL}
+                    ok &= bool(cls) and cls[0] == (NEGATE, None) and all(o == LITERAL for o, _ in cls[1:]) and ord(':') in excl \
+                        and excl <= {ord(':'), 10, 13}
+                continue
+            ok = False
+        if lit:
+            fields.append(lit)
+        got.append(fields if ok else f'{fields} (a field does not take everything up to the next colon, or the line is not anchored per line)')
+    chk.ob('C17.line', 'ACPCProtocolParser.HAND', got == want, ap.loc,
+           'a line is read as its colon-separated fields in the order the writers emit them; every field but the hand number takes any text '
+           'without a colon (names are free text), the whole line is matched, line by line', got=got, want=want)
